@@ -41,6 +41,20 @@ def layouts(src):
             if isinstance(c, CompiledFunction):
                 walk(c)
     walk(top)
+    # Internal names of catch parameters ("e@17") carry a number drawn from a process-wide counter (since 02c280e a later
+    # program never reuses the name of an earlier one). The number is not observable by a script; what matters for the
+    # layout comparison is which catch clause a slot belongs to: renumber by rank within this compilation.
+    import re
+    nums = sorted({int(m.group(1)) for f in out for lst in (f["locals"], f["cells"], f["frees"]) for nm in lst
+                   for m in [re.search(r"@(\d+)$", nm)] if m})
+    rank = {n: i + 1 for i, n in enumerate(nums)}
+
+    def canon(nm):
+        m = re.search(r"@(\d+)$", nm)
+        return nm[:m.start()] + "@%d" % rank[int(m.group(1))] if m else nm
+    for f in out:
+        for k in ("locals", "cells", "frees"):
+            f[k] = [canon(nm) for nm in f[k]]
     out.sort(key=lambda f: (f["name"], f["np"], sorted(f["locals"]), sorted(f["cells"]), sorted(f["frees"])))
     return out
 
